@@ -66,8 +66,71 @@ def metaPut (d : Meta) (k v : String) : Meta :=
 def stripQuotes (raw : String) : String :=
   String.ofList ((raw.toList.dropWhile (· = '"')).reverse.dropWhile (· = '"')).reverse
 
-/-- first-occurrence de-duplication (`if item not in unique: unique.append(item)`) -/
+/-- first-occurrence de-duplication with structural equality.  NOT what `visitMal` does (it compares with Python's
+`==`, see `dedupBy` / `assetEqv` below); kept as the special case `dedupBy (· == ·)` (`dedup_eq_dedupBy`). -/
 def dedup {α} [DecidableEq α] (l : List α) : List α :=
   l.foldl (fun acc x => if acc.contains x then acc else acc ++ [x]) []
+
+/-! ### Python's `==` on the values `visitMal` de-duplicates
+
+`visitMal` ends with `if item not in unique: unique.append(item)` over the categories, assets and associations.
+`in` compares with `==`, and `==` on dictionaries ignores the ORDER of the keys.  The only dictionaries whose key
+order depends on the source text are the `meta` dictionaries (`user info: … developer info: …` in any order), so two
+declarations that differ only in the order of their meta entries are *one* declaration for the compiler.  Numbers are
+`float`s: `1`, `1.0` and `1.00` are equal.  The relations below say exactly that; everything else is compared
+structurally. -/
+
+/-- the canonical text of a decimal literal (`digits`, `digits.digits`, `.digits`): no leading zeros in front of the
+point, no trailing zeros behind it, always a point.  Two literals have the same canonical text iff they denote the
+same rational number; Python compares the `float`s, which coincides except beyond the precision of a double. -/
+def canonNum (s : String) : String :=
+  let cs := s.toList
+  let ip := (cs.takeWhile (· != '.')).dropWhile (· == '0')
+  let fp := (((cs.dropWhile (· != '.')).drop 1).reverse.dropWhile (· == '0')).reverse
+  String.ofList (ip ++ '.' :: fp)
+
+/-- `float(a) == float(b)` -/
+def numEq (a b : String) : Bool := canonNum a == canonNum b
+
+/-- `==` on two `meta` dictionaries: the same number of entries and every entry of the left one is an entry of the
+right one — key order is irrelevant -/
+def metaEqv (a b : Meta) : Bool := a.length == b.length && a.all (fun e => b.lookup e.1 == some e.2)
+
+/-- element-wise comparison of two lists (`==` on Python lists) -/
+def listEqv {α} (r : α → α → Bool) : List α → List α → Bool
+  | [], [] => true
+  | a :: as, b :: bs => r a b && listEqv r as bs
+  | _, _ => false
+
+def optEqv {α} (r : α → α → Bool) : Option α → Option α → Bool
+  | none, none => true
+  | some a, some b => r a b
+  | _, _ => false
+
+def ttcEqv : TTC → TTC → Bool
+  | .func n a, .func m b => n == m && listEqv numEq a b
+  | .num a, .num b => numEq a b
+  | .bin o l r, .bin p l' r' => o == p && ttcEqv l l' && ttcEqv r r'
+  | _, _ => false
+
+def stepEqv (a b : CStep) : Bool :=
+  a.name == b.name && metaEqv a.metaD b.metaD && a.type == b.type && a.tags == b.tags && a.risk == b.risk &&
+  optEqv ttcEqv a.ttc b.ttc && a.requires == b.requires && a.reaches == b.reaches
+
+def assetEqv (a b : CAsset) : Bool :=
+  a.name == b.name && metaEqv a.metaD b.metaD && a.category == b.category && a.isAbstract == b.isAbstract &&
+  a.superAsset == b.superAsset && a.variables == b.variables && listEqv stepEqv a.steps b.steps
+
+def assocEqv (a b : CAssoc) : Bool :=
+  a.name == b.name && metaEqv a.metaD b.metaD && a.leftAsset == b.leftAsset && a.leftField == b.leftField &&
+  a.leftMin == b.leftMin && a.leftMax == b.leftMax && a.rightAsset == b.rightAsset && a.rightField == b.rightField &&
+  a.rightMin == b.rightMin && a.rightMax == b.rightMax
+
+def catEqv (a b : String × Meta) : Bool := a.1 == b.1 && metaEqv a.2 b.2
+
+/-- first-occurrence de-duplication as `visitMal` does it: `if item not in unique: unique.append(item)`, where
+`item in unique` is `any(item == u for u in unique)` with the equality `r` -/
+def dedupBy {α} (r : α → α → Bool) (l : List α) : List α :=
+  l.foldl (fun acc x => if acc.any (r x) then acc else acc ++ [x]) []
 
 end MalVerif.Mal
